@@ -1,6 +1,7 @@
 import BSModel.Proofs.Entities
 import BSModel.Proofs.Html5
 import BSModel.Proofs.Html5Fix
+import BSModel.Proofs.Html5Agree
 import BSModel.Proofs.EntitiesPopulate
 import BSModel.Gen.EntitiesSource
 import BSModel.Model.EntitiesGlue
@@ -243,6 +244,23 @@ theorem html5_old_eq_fixed (T : Tbl) (h5 : Html5OK T = true) (s : PStr) (hs : am
     substHtml5Old T s = substHtml5 T s :=
   let ⟨hw, hd, _, _⟩ := html5OK_spec h5
   old_eq_fixed_of_agree hw hd s hs
+
+/-- `a`, `m`, `p` are word characters for `re` and `;` is not (needed for the converse below). -/
+theorem agreeOK_live : AgreeOK BS.Gen.C09.htmlTable = true := by decide +kernel
+
+/-- **Exactly** where the repair changes nothing: the outputs of 4.13.0's function and of the repaired one coincide if and
+    only if both take the same decision at every ampersand. (So the repair touches precisely the strings with an `&` before
+    `#` without a complete numeric reference, before a name with `-`/`.` and `;`, before a known name without `;`, or before a
+    semicolon-optional name as a prefix.) -/
+theorem html5_old_eq_fixed_iff (T : Tbl) (h : TblOK T = true) (h5 : Html5OK T = true) (hf : Html5FixOK T = true)
+    (ha : AgreeOK T = true) (s : PStr) : substHtml5Old T s = substHtml5 T s ↔ ampsAgree T s = true := by
+  constructor
+  · intro heq
+    obtain ⟨hw, hd, _, _⟩ := html5OK_spec h5
+    unfold substHtml5Old substHtml5 substHtml5With at heq
+    rw [escapeEntities_eq_spec hw hd] at heq
+    exact agree_of_old_eq_fixed (tblOK_plain h).1 (html5FixOK_spec hf).1 ha s heq
+  · exact html5_old_eq_fixed T h5 s
 
 theorem html5_old_roundtrip_of_agree (T : Tbl) (h : TblOK T = true) (h5 : Html5OK T = true) (hf : Html5FixOK T = true)
     (late : Bool) (s : PStr) (hs : ampsAgree T s = true) :
